@@ -53,7 +53,13 @@ def run_spec(draw):
     algos = [["Probe", {"key": "c17pre", "run_always": True}]] + gate + [["WeighSpecified", {"weights": w}], ["SetNotional", {"frame": "notl"}], ["Rebalance", {}], ["Probe", {"key": "c17post"}]]
     if draw(st.integers(0, 3)) == 0:
         algos.insert(1, ["CapitalFlow", {"amount": draw(st.sampled_from([50000.0, -20000.0, 1234.5]))}])
-    children = [{"sec": t, "kind": kinds[t], "mult": mult[t]} for t in tickers]
+    children = [dict({"sec": t, "kind": kinds[t], "mult": mult[t]}, **({"lazy": True} if draw(st.integers(0, 3)) == 0 else {})) for t in tickers]
+    if draw(st.integers(0, 3)) == 0:
+        # a second step on the same date: the tree is read in between (probe) and then rebalanced again to other weights
+        ks2 = draw(st.lists(st.sampled_from(tickers), min_size=1, max_size=nt, unique=True))
+        raw2 = [draw(st.integers(1, 6)) for _ in ks2]
+        w_second = {k: round(r / float(sum(raw2)), 4) for k, r in zip(ks2, raw2)}
+        algos = algos + [["WeighSpecified", {"weights": w_second}], ["Rebalance", {}]]
     spec = {
         "dates": ds,
         "prices": pr,
@@ -74,7 +80,8 @@ def run_spec(draw):
         spec["additional"].append("cost_short")
     bo = draw(st.sampled_from([None, None, 0.02, 0.1]))
     if bo is not None:
-        spec["bidoffer"] = {t: [bo] * n for t in tickers}
+        # spreads may be quoted for some securities only (the others trade at mid)
+        spec["bidoffer"] = {t: [bo] * n for t in tickers if draw(st.integers(0, 3)) != 0} or {tickers[0]: [bo] * n}
     nested = draw(st.integers(0, 4)) == 0
     if nested and nt >= 2:
         sub_t = tickers[: nt // 2]
